@@ -33,6 +33,7 @@ func (t TimeSpec) Text() []byte { return []byte(t.Time().Format(time.RFC3339Nano
 
 var Times = []TimeSpec{{0, 0, 0}, {100, 5, 0}, {1700000000, 123456789, 0}, {1700000000, 120000000, 330}, {1700000000, 999999999, -480},
 	{-62135596800, 0, 0} /* year 1 */, {253402300799, 999999999, 0} /* 9999-12-31T23:59:59.999999999Z */, {951782400, 500000000, 60}, {1, 1000, -1}, {-1, 0, 840}}
+
 // out of range in every zone (a formatter that normalises the zone first must still fail)
 var BadTimes = []TimeSpec{{253402300800 + 86400, 0, 0} /* year 10000 */, {-62198755200, 0, 0} /* year -1 */, {253402300800 + 86400, 5, -300}}
 
@@ -48,8 +49,17 @@ func GenTime(r *hc.Rand) TimeSpec {
 
 // format tables: names are interned (1 json, 2 cloudevents-json, 3 cloudevents-text, 4 text, 5 other, 6.. anything else)
 type TableEntry struct {
-	F string `json:"f"` // format name
-	V string `json:"v"` // hex
+	F string `json:"f"`             // format name
+	V string `json:"v"`             // hex
+	N bool   `json:"nil,omitempty"` // the entry holds a nil slice (a written key all the same)
+}
+
+// Value is the slice the entry holds: nil, empty-but-not-nil, or bytes.
+func (t TableEntry) Value() []byte {
+	if t.N {
+		return nil
+	}
+	return Unhex(t.V)
 }
 
 var fmtIDs = map[string]int{"json": 1, "cloudevents-json": 2, "cloudevents-text": 3, "text": 4, "other": 5}
@@ -98,7 +108,14 @@ func GenPre(r *hc.Rand, g *Gen) (bool, []TableEntry) {
 	var es []TableEntry
 	for _, f := range []string{"json", "text", "cloudevents-json", "cloudevents-text", "other", "x-" + hex.EncodeToString(g.String(2))} {
 		if r.Chance(1, 3) {
-			es = append(es, TableEntry{f, hex.EncodeToString(g.String(6))})
+			switch r.Intn(8) {
+			case 0:
+				es = append(es, TableEntry{F: f, N: true}) // a nil value is still a written key
+			case 1:
+				es = append(es, TableEntry{F: f, V: ""}) // empty, not nil
+			default:
+				es = append(es, TableEntry{F: f, V: hex.EncodeToString(g.String(6))})
+			}
 		}
 	}
 	return false, es
